@@ -53,7 +53,7 @@ def pytorch_load(context):
     with untrusted data can lead to arbitrary code execution. The safe
     alternative is to use `weights_only=True` or the safetensors library.
     """
-    imported = context.is_module_imported_exact("torch")
+    imported = context.is_module_imported_like("torch")
     qualname = context.call_function_name_qual
     if not imported and isinstance(qualname, str):
         return
